@@ -8,6 +8,15 @@ From XD Require Import model.Opt proofs.OptBase proofs.OptInner proofs.OptOuter 
 Import ListNotations.
 
 (* ---- limits ------------------------------------------------------------------------
+   The limit theorems hold in both settings of Optimize(check_limits=...):
+   check_limits=True  - the merit function refuses every value outside the limits,
+                        for any positive weights;
+   check_limits=False - only the Jacobian solver's limit test protects the knobs; it
+                        works on x = knob/weight, so the statement is exact for unit
+                        weights ([unit_laws]: all weights 1, x*1 = x, x/1 = x, x-0 = x,
+                        true of IEEE doubles) - for other weights the knob can overshoot
+                        by the rounding of the weight scaling (checked with an ulp slack
+                        by the oracle).
    [good E cf s]: shapes are consistent, every container knob is inside its
    closed limits (not v < lo, not hi < v), every row of the log too, and the log
    is not empty.  [wfc]: one limits entry per knob. *)
@@ -27,7 +36,7 @@ Proof. intros; reflexivity. Qed.
 Print Assumptions C10_inside_meaning.
 
 (* a constructed optimizer whose start point is inside the limits is good *)
-Theorem C10_limits_init : forall (E : env) (cf : cfg (eF E)), wfc E cf -> c_check cf = true -> forall k0 va0 s0,
+Theorem C10_limits_init : forall (E : env) (cf : cfg (eF E)), wfc E cf -> (c_check cf = true \/ (c_check cf = false /\ unit_laws E cf)) -> forall k0 va0 s0,
   init E cf k0 va0 = Ok s0 -> length k0 = length (c_w cf) -> length va0 = length (c_w cf) ->
   lims_ok E (c_lim cf) k0 -> good E cf s0.
 Proof. exact init_good. Qed.
@@ -37,7 +46,7 @@ Print Assumptions C10_limits_init.
    inside the limits: the Jacobian solver's limit test and its update compute the
    same x_i - step_i, and every value the merit function writes with
    check_limits has passed the test *)
-Theorem C10_limits : forall (E : env) (cf : cfg (eF E)), wfc E cf -> c_check cf = true -> forall fuel o s s',
+Theorem C10_limits : forall (E : env) (cf : cfg (eF E)), wfc E cf -> (c_check cf = true \/ (c_check cf = false /\ unit_laws E cf)) -> forall fuel o s s',
   good E cf s -> run_op E cf fuel o s = Ok s' -> good E cf s'.
 Proof.
   intros E cf Hc Hk fuel o s s' Hg Ho. pose proof (run_op_good E cf Hc Hk fuel o s Hg) as P. rewrite Ho in P. exact P.
@@ -48,7 +57,7 @@ Print Assumptions C10_limits.
    containers too when the operation is solve() with restore_if_fail, reload or
    tag (a failing bare step() may leave a finite-difference perturbation x+h in
    a container, a failing clear_log() leaves no row 0) *)
-Theorem C10_limits_failure : forall (E : env) (cf : cfg (eF E)), wfc E cf -> c_check cf = true -> forall fuel o s e s',
+Theorem C10_limits_failure : forall (E : env) (cf : cfg (eF E)), wfc E cf -> (c_check cf = true \/ (c_check cf = false /\ unit_laws E cf)) -> forall fuel o s e s',
   good E cf s -> run_op E cf fuel o s = Err e s' ->
   Forall (row_ok E cf) (log s') /\ (restoring E cf o -> good E cf s').
 Proof.
@@ -57,7 +66,7 @@ Qed.
 Print Assumptions C10_limits_failure.
 
 (* all sequences of operations whose failures are restoring ones *)
-Theorem C10_limits_sequences_partial : forall (E : env) (cf : cfg (eF E)), wfc E cf -> c_check cf = true -> forall s0 s,
+Theorem C10_limits_sequences_partial : forall (E : env) (cf : cfg (eF E)), wfc E cf -> (c_check cf = true \/ (c_check cf = false /\ unit_laws E cf)) -> forall s0 s,
   good E cf s0 -> reach_r E cf s0 s -> good E cf s.
 Proof. exact reach_good. Qed.
 Print Assumptions C10_limits_sequences_partial.
@@ -169,6 +178,12 @@ Definition xenv : env :=
 Definition xcfg : cfg Qc :=
   mkCfg [1%Qc] [Some (Some (Q2Qc (-3)), None)] [1%Qc] [Some (Q2Qc (1 # 2))] [0%N] [0%N]
         [Q2Qc 2; Q2Qc 2] [Q2Qc (1 # 10); Q2Qc (1 # 10)] [1%Qc; 1%Qc] [0%N; 0%N] 3 true true true.
+
+Example C10_unit_laws_satisfiable : unit_laws xenv xcfg.
+Proof.
+  unfold unit_laws. cbn. split; [repeat constructor|]. split; [intros x; ring|]. split; [intros x; field; discriminate|intros x; ring].
+Qed.
+Print Assumptions C10_unit_laws_satisfiable.
 
 Example C10_good_satisfiable :
   wfc xenv xcfg /\
